@@ -18,6 +18,14 @@ class TapeMismatch(BaseException):
     """The code asked for a draw the script does not provide (BaseException: not caught by the library)."""
 
 
+class TapeExhausted(TapeMismatch):
+    """script mode ran out of scripted draws: the enumerator branches on (kind, range) here"""
+
+    def __init__(self, kind, rng, api):
+        super().__init__("script exhausted: code asked for %s(%s) via %s" % (kind, rng, api))
+        self.kind, self.range, self.api = kind, rng, api
+
+
 class Boom(Exception):
     """Injected callback failure."""
 
@@ -81,7 +89,7 @@ class Tape:
 
     def _next(self, kind, rng, api):
         if not self.script:
-            raise TapeMismatch("script exhausted: code asked for %s(%s) via %s" % (kind, rng, api))
+            raise TapeExhausted(kind, rng, api)
         k, r, v = self.script.pop(0)
         if k != kind or (r is not None and rng is not None and r != rng):
             raise TapeMismatch("script has %s(%s), code asked for %s(%s) via %s" % (k, r, kind, rng, api))
